@@ -247,7 +247,24 @@ fn plain_queries<B: AsRef<[usize]>>(cx: &mut Ctx, v: &BitVec<B>, model: &[bool],
             let e = cx.must("eq", || *v == copy)?;
             cx.check(e, "eq", || "vector differs (==) from a copy built from the same bits".into())?;
             let ne = cx.must("ne", || *v != copy)?;
-            cx.check(!ne, "eq", || "!= true against an identical copy".into())
+            cx.check(!ne, "eq", || "!= true against an identical copy".into())?;
+            // borrowed views over the very same words
+            let words: &[usize] = v.as_ref();
+            let full = unsafe { BitVec::<&[usize]>::from_raw_parts(words, model.len()) };
+            let e = cx.must("eq", || *v == full && full == *v)?;
+            cx.check(e, "eq.view", || "== false against a borrowed view of the same words and length".into())?;
+            if !model.is_empty() {
+                let prefix = unsafe { BitVec::<&[usize]>::from_raw_parts(words, model.len() - 1) };
+                let e = cx.must("eq", || *v == prefix || prefix == full)?;
+                cx.check(!e, "eq.view", || format!("== true between a vector of {} bits and a view of its first {} bits over the same words", model.len(), model.len() - 1))?;
+            }
+            // Iterator protocol of the three iterators against the model's
+            let script = (model.len() as u64).wrapping_mul(0x9E37_79B9_7F4A_7C15) ^ model.iter().take(40).fold(0u64, |a, b| a << 1 | *b as u64);
+            iter_protocol(cx, "iter", v.iter(), model, script)?;
+            let ones: Vec<usize> = (0..model.len()).filter(|i| model[*i]).collect();
+            iter_protocol(cx, "iter_ones", v.iter_ones(), &ones, script ^ 0xAAAA)?;
+            let zeros: Vec<usize> = (0..model.len()).filter(|i| !model[*i]).collect();
+            iter_protocol(cx, "iter_zeros", v.iter_zeros(), &zeros, script ^ 0x5555)
         }
         Op::EqDirtyTail(g) => {
             // same logical bits, different bits beyond len (and extra words)
@@ -314,7 +331,7 @@ impl Property for C06 {
         ]
     }
     fn rule(&self) -> &'static str {
-        "case = (construction route, <=60 ops incl. a Scribble op that writes garbage through the safe AsMut<[usize]> into the backend bits beyond len) decoded from bytes; model = Vec<bool>; whole observable state (len, iter, get/index of every position) compared after every op. Non-trivial: a shrink (pop/resize down) followed by an observation of ones/zeros/count/equality, or a fill/flip/reset mixed with a push/resize; distinct = distinct hash of the decoded history."
+        "case = (construction route, <=60 ops incl. a Scribble op that writes garbage through the safe AsMut<[usize]> into the backend bits beyond len) decoded from bytes; model = Vec<bool>; whole observable state (len, iter, get/index of every position) compared after every op. Every iterator is also driven through a generated script of next/nth/size_hint steps and one consuming adaptor (count, last, collect, step_by, skip, fold) in lock-step with the model's iterator. Equality is also taken between the vector and borrowed views over its own words (same length: equal; one bit shorter: different). Non-trivial: a shrink (pop/resize down) followed by an observation of ones/zeros/count/equality, or a fill/flip/reset mixed with a push/resize; distinct = distinct hash of the decoded history."
     }
     fn run(&self, data: &[u8], cx: &mut Ctx) -> R {
         let (mode, rest) = data.split_first().unwrap_or((&0, &[]));
